@@ -30,6 +30,7 @@ import (
 	"github.com/tsawler/tabula/rag"
 
 	"verifharness/fw"
+	"verifharness/gen/epubw"
 	"verifharness/gen/htmlw"
 	"verifharness/gen/logical"
 	"verifharness/gen/odf"
@@ -219,9 +220,10 @@ type pptxBackend struct{}
 func (pptxBackend) Name() string { return "pptx" }
 func (pptxBackend) Profile(r *rand.Rand) logical.Profile {
 	return logical.Profile{MinBlocks: 1, MaxBlocks: 5, Tables: true, MaxRows: 6, MaxCols: 6, Spans: true, MultiPara: true,
-		EmptyCells: true, CellSpecials: true, Tab: true, Break: true, Sym: true, Pipes: true, Backslash: true, XMLChars: true, BlockBias: "tables", Styles: 2}
+		EmptyCells: true, CellSpecials: true, Tab: true, Break: true, Sym: true, Pipes: true, Backslash: true, XMLChars: true,
+		Lists: true, ListMaxDepth: 3, BlockBias: []string{"tables", "tables", "lists"}[r.Intn(3)], Styles: 2}
 }
-func (pptxBackend) Expect(o *MDOpts)                        { o.NoHeadings, o.NoLists = true, true }
+func (pptxBackend) Expect(o *MDOpts)                        { o.NoHeadings = true }
 func (pptxBackend) UsesOptions() bool                       { return false }
 func (pptxBackend) Triggers(d *logical.Doc) map[string]bool { return nil }
 func (pptxBackend) Markdown(c *fw.Ctx, id string, d *logical.Doc, r *rand.Rand, neutral map[string]bool, o rag.MarkdownOptions) (string, error) {
@@ -296,6 +298,16 @@ func (htmlBackend) Expect(o *MDOpts)                        {}
 func (htmlBackend) UsesOptions() bool                       { return true }
 func (htmlBackend) Triggers(d *logical.Doc) map[string]bool { return nil }
 func (htmlBackend) Markdown(c *fw.Ctx, id string, d *logical.Doc, r *rand.Rand, neutral map[string]bool, o rag.MarkdownOptions) (string, error) {
+	if r.Intn(3) == 0 {
+		// the same content as the only chapter of an EPUB
+		path := filepath.Join(c.Work, strings.NewReplacer(":", "_", "#", "_", "/", "_").Replace(id)+".epub")
+		if err := os.WriteFile(path, epubw.SimpleBook(d.Title, [][]byte{htmlw.XHTMLFromLogical(d)}), 0o644); err != nil {
+			return "", err
+		}
+		defer os.Remove(path)
+		md, _, err := tabula.Open(path).ToMarkdownWithOptions(o)
+		return md, err
+	}
 	data := htmlw.FromLogical(d)
 	if r.Intn(2) == 0 {
 		md, _, err := tabula.FromHTMLString(string(data)).ToMarkdownWithOptions(o)
